@@ -51,13 +51,19 @@ THEOREMS = [
     "GoaktVerif.C45.stageSem_homog",
     "GoaktVerif.C45.C45_gen",
     "GoaktVerif.C45.C45_holds",
+    "GoaktVerif.C45.PInvU.step_down",
+    "GoaktVerif.C45.PInvU.step_result",
+    "GoaktVerif.C45.PInvU.specU",
+    "GoaktVerif.C45.Approx.stepU",
+    "GoaktVerif.C45.GInv.sink_okU",
+    "GoaktVerif.C45.C45_unordered_holds",
     "GoaktVerif.C45.C45_full_refuted_untyped",
 ]
 INPKG = ["stream/zz_verif_c45.go"]
 TIMEOUT = 900
 MANIFEST = {
-    "level_text": "C45_holds: for EVERY pipeline without the unordered ParallelMap (OrderedParallelMap included: resequencing invariant `every seqNo is exactly one of emitted / in the heap / with a worker`, workers replying in any order), both fusion modes, every input whose elements have one type (what the typed Go API can feed) and EVERY schedule, the sink statement below holds. Kernel-checked composition theorem on an actor-level model of a materialized pipeline (pull source, flowActor, fusedFlowActor, batchFlowActor, parallelMapActor, sinkActor as state machines; FIFO links; every scheduler choice - which actor handles which pending message next - explicit): C45_partial_all (= C45_partial for FuseNone + C45_partial_fused for the default fusion): for EVERY pipeline over Map, TryMap, Filter, FlatMap, Flatten, Scan, Deduplicate, Buffer and Batch (the actor as fixed by 688097a: exact batches of max(n,1), nothing dropped whatever the demand), every input and EVERY schedule of any length, at every moment the sink's record is a prefix of the list semantics `sem`, the completion hook runs at most once (exactly once when the sink has stopped, duplicate streamComplete included), normal completion means exactly `sem` with no failing stage, and a failure carries an error some stage raises on this input. With fusion on, runs of fusable stages are one fusedFlowActor composing them element by element; fusedRun_cons/fusedSem/semF_groups prove that this delivers the same elements as the stage-by-stage list semantics and fails iff, and with an error that, some stage of the run raises. Built from per-actor invariants preserved by every message (FlowInv.step, FusedInv.step_down, BatchInv.step_req/step_down via batchFlush_spec and the chunk lemmas, SrcInv.step_req, SinkInv.step_down), a network invariant preserved by every scheduler step (GInv.step_up/step_down/run, any demand pattern) and the closure-vs-list-function lemma xfRun_eq_stageSem; plus noStall_step (no-stall invariant) and sink_hooks_le_one.",
-    "level_note": "Partial: the statement over the untyped model's ill-typed inputs is refuted (C45_full_refuted_untyped: an OrderedParallelMap with a failing int in flight receives a list element and stops with the type error) - not reachable through the typed API, hence C45_holds assumes homogeneous input; C45_partial_all needs no assumption for pipelines without parallel stages; unordered ParallelMap has no theorem (multiset comparison by the differential only); liveness (the stream eventually completes) is not proved, only the local no-stall invariant; Batch maxWait timer flushes are compared as concatenation; unordered ParallelMap is compared as a multiset; the model assumes every stage handles its stageWire first (guaranteed end-to-end since fix cf400b2: demand starts at the sink, which is wired last). Trusted: Lean kernel; the differential (per-actor message replay of the real actors between probe actors, end-to-end runs of the real stream, slow-consumer variant included, against the list semantics).",
+    "level_text": "C45_unordered_holds: for EVERY pipeline `pre ++ [ParallelMap]` (pre any ordered stages, OrderedParallelMap included), both fusion modes, every one-typed input, workers replying in ANY order and EVERY schedule: at every moment the sink holds a sub-multiset of the results of the non-failing elements, normal completion means a PERMUTATION of the list semantics `sem` with no failing stage, a failure carries an error `sem` lists, the hook runs exactly once (per-actor invariant PInvU: emitted results + results in flight are a permutation of the inputs taken; content spec SpecU; Approx.stepU; GInv.sink_okU). C45_holds: for EVERY pipeline without the unordered ParallelMap (OrderedParallelMap included: resequencing invariant `every seqNo is exactly one of emitted / in the heap / with a worker`, workers replying in any order), both fusion modes, every input whose elements have one type (what the typed Go API can feed) and EVERY schedule, the sink statement below holds. Kernel-checked composition theorem on an actor-level model of a materialized pipeline (pull source, flowActor, fusedFlowActor, batchFlowActor, parallelMapActor, sinkActor as state machines; FIFO links; every scheduler choice - which actor handles which pending message next - explicit): C45_partial_all (= C45_partial for FuseNone + C45_partial_fused for the default fusion): for EVERY pipeline over Map, TryMap, Filter, FlatMap, Flatten, Scan, Deduplicate, Buffer and Batch (the actor as fixed by 688097a: exact batches of max(n,1), nothing dropped whatever the demand), every input and EVERY schedule of any length, at every moment the sink's record is a prefix of the list semantics `sem`, the completion hook runs at most once (exactly once when the sink has stopped, duplicate streamComplete included), normal completion means exactly `sem` with no failing stage, and a failure carries an error some stage raises on this input. With fusion on, runs of fusable stages are one fusedFlowActor composing them element by element; fusedRun_cons/fusedSem/semF_groups prove that this delivers the same elements as the stage-by-stage list semantics and fails iff, and with an error that, some stage of the run raises. Built from per-actor invariants preserved by every message (FlowInv.step, FusedInv.step_down, BatchInv.step_req/step_down via batchFlush_spec and the chunk lemmas, SrcInv.step_req, SinkInv.step_down), a network invariant preserved by every scheduler step (GInv.step_up/step_down/run, any demand pattern) and the closure-vs-list-function lemma xfRun_eq_stageSem; plus noStall_step (no-stall invariant) and sink_hooks_le_one.",
+    "level_note": "Partial: the statement over the untyped model's ill-typed inputs is refuted (C45_full_refuted_untyped: an OrderedParallelMap with a failing int in flight receives a list element and stops with the type error) - not reachable through the typed API, hence C45_holds assumes homogeneous input; C45_partial_all needs no assumption for pipelines without parallel stages; the unordered ParallelMap theorem covers it as the LAST stage (as a middle stage the downstream stages see a schedule-dependent order; there the multiset comparison is by the differential only); liveness (the stream eventually completes) is not proved, only the local no-stall invariant; Batch maxWait timer flushes are compared as concatenation; unordered ParallelMap is compared as a multiset; the model assumes every stage handles its stageWire first (guaranteed end-to-end since fix cf400b2: demand starts at the sink, which is wired last). Trusted: Lean kernel; the differential (per-actor message replay of the real actors between probe actors, end-to-end runs of the real stream, slow-consumer variant included, against the list semantics).",
     "technique": "Lean 4 proof (inductive invariants over every message order) on a hand-written actor model, tied to the Go code by deterministic per-actor message replay and an end-to-end differential against the list semantics",
 }
 TRUSTED = [
